@@ -323,3 +323,83 @@ def check_cases(cases):
             divs.append({'case': c, 'index': d[0], 'model_line': d[1], 'real_line': d[2],
                          'lines': lines, 'expect': expect, 'model_out': m})
     return divs, errors, stats
+
+
+# --------------------------------------------------------------------------
+# Nested transdimensional configurations for the real-code searches (the plumbing MODEL does not
+# cover them; their well-formedness and acceptance are C10/C11's model, EpsieModel/Transdim.lean)
+# --------------------------------------------------------------------------
+
+class TDCase:
+    """Adapter exposing a transdim.TDConfig through the interface the searches use."""
+
+    def __init__(self, cid, cfg, kind, nchains, seed, ops):
+        self.cid, self.cfg, self.kind, self.nchains, self.seed, self.ops = cid, cfg, kind, nchains, seed, list(ops)
+        self.betas = list(cfg.betas) if kind == 'pt' else [1.0]
+        self.swap_interval = cfg.swap_interval if kind == 'pt' else 1
+        self.dynamic = False
+        self.reset_after_swap = False
+        self.params = [(n, 'td', None) for n in cfg.params]
+        self.props = [('nested_transdimensional:' + cfg.inner, list(cfg.params), {})]
+        self.blobs = False
+        self.model_kind = 'td'
+        self.prop_seed = cfg.inner_seed
+
+    def describe(self):
+        return {'id': self.cid, 'td': self.cfg.describe(), 'kind': self.kind, 'nchains': self.nchains,
+                'seed': self.seed, 'ops': self.ops, 'betas': self.betas, 'swap_interval': self.swap_interval,
+                'dynamic': False, 'props': self.props, 'params': self.params}
+
+
+def gen_td_case(rng, cid, kinds=('mh', 'pt'), allow_saveload=True, max_ops=7):
+    import transdim
+    kind = rng.choice(kinds)
+    cfg = transdim.gen_run_cfg(rng, kind == 'pt')
+    ops = []
+    for _ in range(rng.randint(2, max_ops)):
+        r = rng.random()
+        if r < 0.55:
+            ops.append(('run', rng.choice([0, 1, 2, 3, 5, 8])))
+        elif r < 0.7:
+            ops.append(('clear',))
+        elif r < 0.85 and allow_saveload:
+            ops.append(('saveload',))
+        else:
+            ops.append(('dump',))
+    ops += [('run', rng.choice([1, 2, 4])), ('dump',)]
+    return TDCase(cid, cfg, kind, rng.choice([1, 2]), rng.randrange(1 << 30), ops)
+
+
+_orig_build_sampler, _orig_make_model, _orig_start_positions = build_sampler, make_model, start_positions
+
+
+def build_sampler(c, seed, model):
+    if not isinstance(c, TDCase):
+        return _orig_build_sampler(c, seed, model)
+    props = c.cfg.build()
+    if c.kind == 'mh':
+        return MetropolisHastingsSampler(c.cfg.params, model, c.nchains, proposals=props, seed=seed)
+    return ParallelTemperedSampler(c.cfg.params, model, c.nchains, numpy.array(c.betas),
+                                   swap_interval=c.swap_interval, proposals=props, seed=seed)
+
+
+def make_model(c):
+    if not isinstance(c, TDCase):
+        return _orig_make_model(c)
+    return c.cfg.model()
+
+
+def start_positions(c):
+    if not isinstance(c, TDCase):
+        return _orig_start_positions(c)
+    srng = random.Random(c.seed ^ 0x7D7D)
+    nt = len(c.betas)
+    names = c.cfg.params
+
+    def pt():
+        return c.cfg.point_dict(*c.cfg.random_point(srng))
+    if c.kind == 'mh':
+        pts = [pt() for _ in range(c.nchains)]
+        return {n: numpy.array([p[n] for p in pts]) for n in names}
+    pts = [[pt() for _ in range(c.nchains)] for _ in range(nt)]
+    return {n: numpy.array([[p[n] for p in row] for row in pts]) for n in names}
